@@ -25,6 +25,7 @@ for sid in ids:
     finally:
         subprocess.run(["git", "-C", "/repo", "checkout", "--", "."])
     print(rows[-1], flush=True)
+subprocess.run([os.path.join(V, ".work", "factx-bin"), "/repo", os.path.join(V, "lean/Dirk/Gen/Facts.lean")])   # facts back to the unchanged tree
 with open(os.path.join(V, "seeded", "MATRIX.md"), "w") as f:
     f.write("# Seeded changes × the quick check of their property (regenerate: tools/seeded_matrix.py)\n\n| seeded change | property | check exit | violations reported |\n|---|---|---|---|\n")
     for r in rows:
